@@ -55,7 +55,10 @@ def configs(tier, seed):
                         "montrg": TRG[rnd.randrange(3)]})
             if len(out) % 4 == 2 and n > 1:
                 out[-1]["names"] = "same" if len(out) % 8 == 2 else "none"
-    for n in ((9, 17) if tier == "quick" else (9, 17, 33)):
+            if len(out) % 3 == 0 and n > 2:
+                out[-1]["readd"] = True      # add a, b, c, ... and then a AGAIN, after the others
+    # (sizes straddling 32 and 64: an OR-reduction built from 32- or 64-bit groups has a partial last group there)
+    for n in ((9, 17, 45) if tier == "quick" else (9, 17, 33, 45, 70, 100)):
         order = list(range(n))
         rnd.shuffle(order)
         out.append({"kind": "monitor", "trg": [TRG[rnd.randrange(3)] for _ in range(n)], "order": order,
@@ -75,6 +78,9 @@ def maker(cfg):
             em.add(srcs[i])
             if i % 2 == 0:
                 em.add(srcs[i])      # repeated additions must not renumber
+        if cfg.get("readd"):
+            em.add(srcs[cfg["order"][0]])   # ... nor reorder: a source added again after later ones keeps its place
+            em.add(srcs[cfg["order"][1]])
         mon = event.Monitor(em, trigger=cfg["montrg"])
         ports = flat_ports(mon) + flat_ports(*srcs, env="out")
         # event.Monitor declares `pending` as In although the monitor itself drives it: not an environment input
